@@ -37,11 +37,14 @@ variable {α ρ β : Type}
 run (DSGen.density_*), so that the model follows the code before AND after the proposed fixes:
 * `mergeSkipOnN`   – `merge` returns early on `other.n_ == 0` (true) / on `other.is_empty()`, i.e. `num_retained_ == 0` (false: pinned tree)
 * `queryChecksDim` – `get_estimate` throws when `point.size() != dim_` (pinned tree: false)
-* `weight64`       – `get_estimate` weights a level by `1ULL << height` (true) / by `1 << height` evaluated in 32-bit `int` (false: pinned tree) -/
+* `weight64`       – `get_estimate` weights a level by `1ULL << height` (true) / by `1 << height` evaluated in 32-bit `int` (false: pinned tree)
+* `popsEmptyTop`   – after `compact_level`, `compact()` runs `while (levels_.size() > 1 && levels_.back().empty()) levels_.pop_back();`
+                     (true: repaired shape, the wire layout cannot represent an empty top level) / keeps the level vector as is (false: pinned tree) -/
 structure Cfg where
   mergeSkipOnN : Bool := false
   queryChecksDim : Bool := false
   weight64 : Bool := false
+  popsEmptyTop : Bool := false
   deriving DecidableEq, Repr
 
 /-- `density_sketch(k, dim)`: one empty level.  `check_k` (k < minK throws) is `ctorThrows`. -/
@@ -99,31 +102,55 @@ def compactLevels (k : Nat) (c : Choice) : List (Level α) → List (Level α)
       | nxt :: rest' => [] :: (nxt ++ pickKept c lvl) :: rest'
     else lvl :: compactLevels k c rest
 
+/-- all trailing empty levels removed (possibly every level) -/
+def dropTrailingEmpty : List (Level α) → List (Level α)
+  | [] => []
+  | x :: xs =>
+    match dropTrailingEmpty xs with
+    | [] => if x.isEmpty then [] else [x]
+    | ys => x :: ys
+
+/-- `while (levels_.size() > 1 && levels_.back().empty()) levels_.pop_back();` (repaired shape) / nothing (pinned shape) -/
+def popTop (c : Cfg) : List (Level α) → List (Level α)
+  | [] => []
+  | l :: r => if c.popsEmptyTop then l :: dropTrailingEmpty r else l :: r
+
+/-- the last level holds a point (vacuous for no level) -/
+def lastNonempty : List (Level α) → Bool
+  | [] => true
+  | [x] => !x.isEmpty
+  | _ :: y :: r => lastNonempty (y :: r)
+
+/-- "the top level of a sketch with more than one level is not empty" – what a reader of the wire layout can reconstruct -/
+def topNonempty : List (Level α) → Bool
+  | [] => true
+  | _ :: r => lastNonempty r
+
 /-- `compact()` (+ `compact_level`): no level with ≥ k points ⇒ nothing happens (and the picker is not consulted). -/
-def compact (P : Picker ρ α) (r : ρ) (s : Sketch α) : Sketch α × ρ :=
+def compact (c : Cfg) (P : Picker ρ α) (r : ρ) (s : Sketch α) : Sketch α × ρ :=
   match firstFull s.k s.levels with
   | none => (s, r)
   | some lvl =>
     let cr := P r lvl
-    ({ s with levels := compactLevels s.k cr.1 s.levels,
+    ({ s with levels := popTop c (compactLevels s.k cr.1 s.levels),
               numRetained := s.numRetained - (lvl.length - (pickKept cr.1 lvl).length) }, cr.2)
 
 /-- `num_retained_ >= k_ * levels_.size()` -/
 def loopCond (s : Sketch α) : Bool := decide (s.k * s.levels.length ≤ s.numRetained)
 
 /-- `while (num_retained_ >= k_ * levels_.size()) compact();` with an explicit iteration budget. -/
-def drain (P : Picker ρ α) : Nat → ρ → Sketch α → Sketch α × ρ
+def drain (c : Cfg) (P : Picker ρ α) : Nat → ρ → Sketch α → Sketch α × ρ
   | 0, r, s => (s, r)
   | f + 1, r, s =>
     if loopCond s then
-      let x := compact P r s
-      drain P f x.2 x.1
+      let x := compact c P r s
+      drain c P f x.2 x.1
     else (s, r)
 
 /-- budget under which the loop provably exits by its own condition (`ds_compact_terminates`) -/
 def fuelOf (s : Sketch α) : Nat := s.numRetained * s.numRetained + 1
 
-def compactLoop (P : Picker ρ α) (r : ρ) (s : Sketch α) : Sketch α × ρ := drain P (fuelOf s) r s
+def compactLoop (c : Cfg) (P : Picker ρ α) (r : ρ) (s : Sketch α) : Sketch α × ρ := drain c P (fuelOf s) r s
 
 /-! ### update / merge -/
 
@@ -134,9 +161,9 @@ def pushLevel0 (p : Point α) : List (Level α) → List (Level α)
 /-- `if (point.size() != dim_) throw` -/
 def updateThrows (s : Sketch α) (p : Point α) : Bool := p.length != s.dim
 
-def update (P : Picker ρ α) (r : ρ) (s : Sketch α) (p : Point α) : Sketch α × ρ :=
+def update (c : Cfg) (P : Picker ρ α) (r : ρ) (s : Sketch α) (p : Point α) : Sketch α × ρ :=
   if p.length ≠ s.dim then (s, r) else
-  let x := compactLoop P r s
+  let x := compactLoop c P r s
   ({ x.1 with levels := pushLevel0 p x.1.levels, numRetained := x.1.numRetained + 1, n := x.1.n + 1 }, x.2)
 
 /-- level-wise concatenation after padding `levels_` to the other's height -/
@@ -156,8 +183,10 @@ def mergeThrows (c : Cfg) (s o : Sketch α) : Bool := !mergeSkips c o && o.dim !
 def merge (c : Cfg) (P : Picker ρ α) (r : ρ) (s o : Sketch α) : Sketch α × ρ :=
   if mergeSkips c o = true then (s, r)
   else if o.dim ≠ s.dim then (s, r)
-  else compactLoop P r { s with levels := mergeLevels s.levels o.levels,
-                                numRetained := s.numRetained + o.numRetained, n := s.n + o.n }
+  else
+    let m : Sketch α := { s with levels := mergeLevels s.levels o.levels,
+                                 numRetained := s.numRetained + o.numRetained, n := s.n + o.n }
+    compactLoop c P r m
 
 /-! ### iterator and estimate -/
 
